@@ -53,7 +53,8 @@ def build(rng, macs, envs):
     k = rng.random()
     pre = docs_preamble = ('\\newcommand{\\ua}{UA text}\\newcommand{\\ub}{\\verb|ub body text|}\n'
                            '\\newcommand{\\uo}[1][default words]{<#1>}\n'
-                           '\\newcommand{\\up}[2][dflt]{(#1/#2)}\n\\newtheorem{thm}{Theorem}\n')
+                           '\\newcommand{\\up}[2][dflt]{(#1/#2)}\n\\newtheorem{thm}{Theorem}\n'
+                           '\\usepackage{xspace}\\newcommand{\\ux}{i.e.\\xspace}\n')
     files = {}
     uses = []
     if k < 0.15:
@@ -67,7 +68,8 @@ def build(rng, macs, envs):
         pool = ['\\cref{sa}', '\\Cref{sa}', '\\cref{eq}', '\\crefrange{sa}{sb}', '\\cref{sa}']
     elif k < 0.45:
         pool = ['\\ua{}', '\\ub{}', '\\uo{}', '\\uo[x y]', '\\up{q}', '\\up[r]{s}',
-                '\\begin{thm}[Name] t \\end{thm}', '\\begin{thm} u \\end{thm}']
+                '\\begin{thm}[Name] t \\end{thm}', '\\begin{thm} u \\end{thm}',
+                '\\ux', 'etc\\xspace', '\\ux', '\\uo', '\\up{q}']
     elif k < 0.6:
         pool = ['$x$', '$y+z$,', '\\(a\\)', '\\[ b = c. \\]', '$$ d $$',
                 '\\begin{equation} e &= f \\\\ g &= h, \\end{equation}',
@@ -160,9 +162,20 @@ def _run_own(tier, seed, build_, res):
             errm.update(range(j, j + len(em)))
             j = txt.find(em, j + 1)
         for i, (ch, q) in enumerate(zip(txt, pos)):
-            if ch.isspace() or i in errm:
+            if i in errm:
                 continue
             o = q - 1
+            if ch.isspace():
+                # white space copied from the source maps to white space; a
+                # generated blank maps into the construct that generated it,
+                # not to a character of the text next to it
+                if 0 <= o < len(src) and not src[o].isspace() \
+                        and any(a <= o < b for a, b in marks) \
+                        and not any(a <= o < b for a, b in spans):
+                    return ('white space (output index %d) maps to offset %d, a character '
+                            'of the word %r next to the construct'
+                            % (i, o, src[max(0, o - 2):o + 6]))
+                continue
             if o < body0:
                 return ('character %r maps to offset %d in the preamble' % (ch, o))
             if any(a <= o < b for a, b in marks):
